@@ -145,6 +145,21 @@ theorem inb_neighbor_lists_needs_uniform :
   have := h (fun i => if i = 0 then 4 else 3) 1 3 (by decide) (by decide)
   simp [InIdx] at this
 
+/-- the OUTER vector: `neighbors[0]` (every consumer starts with `k = neighbors[0].size()`) and `neighbors[i]` for a
+    counted `i < end - begin` — each search returns one list per sample (`neighbors_outer_size`, regenerated from the
+    three searches) and a validated configuration has `N ≥ 2`, so list 0 exists -/
+-- [S]
+theorem inb_neighbors_outer {c : Config} (h : validated c = true) :
+    InIdx 0 (neighbors_outer_size c.N) ∧ ∀ i : Int, 0 ≤ i → i < c.N → InIdx i (neighbors_outer_size c.N) := by
+  have hd := validated_d h
+  simp only [InIdx, neighbors_outer_size]
+  constructor
+  · omega
+  · intro i h0 h1; omega
+
+example : validated (defaultConfig .klle .brute .dense 8 3) = true ∧
+    InIdx 0 (neighbors_outer_size (defaultConfig .klle .brute .dense 8 3).N) := by decide +kernel
+
 /-! ### cover tree: `cover_sets[chi->scale]` -/
 
 /-- after `if (leaf_scale <= n.scale) leaf_scale = n.scale + 1` the scale just assigned indexes inside a table of
